@@ -126,6 +126,30 @@ theorem residual_after_correction (sid ra lon d1 d2 m : ℝ) (j : ℤ) :
     g sid ra lon d1 d2 m' - 360 * j = H * ((d1 / 2 + d2 * (m + m') / 2 - 985647 / 1000000) / 360) := by
   simp only [g]; ring
 
+/-- **Dhuhr is the corrected transit**: Dhuhr/24 is the day fraction m′ = m − H/360 with
+    m = frac((α − L − θ₀)/360) the mean transit fraction and H the hour angle at m; the model's hour
+    angle at that fraction is H·κ modulo whole turns -/
+theorem dhuhr_residual (t : TopAstroDay ℝ) (w : Weather ℝ) :
+    let d := raInterpDeltas t.prev.ra t.cur.ra t.next.ra
+    let m := capAngle1 ((t.cur.ra - t.coords.lon - t.cur.sid) / 360)
+    let H := hourAngle t.cur.sid t.cur.ra t.coords.lon d m
+    let m' := (shurDhuhrMagh t w).2.1 / 24
+    m' = m - H / 360 ∧
+    ∃ j : ℤ, g t.cur.sid t.cur.ra t.coords.lon d.1 d.2 m' - 360 * j =
+      H * ((d.1 / 2 + d.2 * (m + m') / 2 - 985647 / 1000000) / 360) := by
+  intro d m H m'
+  have hm' : m' = m - H / 360 := by
+    simp only [m', shurDhuhrMagh, c_TWO_PI_DEG, c_HRS_PER_DAY]
+    ring
+  refine ⟨hm', ?_⟩
+  obtain ⟨_, _, k, hk⟩ := hourAngle_spec t.cur.sid t.cur.ra t.coords.lon d.1 d.2 m
+  refine ⟨k, ?_⟩
+  have := residual_after_correction t.cur.sid t.cur.ra t.coords.lon d.1 d.2 m k
+  simp only at this
+  have hH : H = g t.cur.sid t.cur.ra t.coords.lon d.1 d.2 m - 360 * k := hk
+  rw [hm', hH]
+  exact this
+
 /-- so under the envelope (daily RA motion within [0.85°, 1.15°]·2, small second difference,
     |H| ≤ 0.5°) the residual hour angle is below 1/3800° ≈ 2.6·10⁻⁴° = 0.063 s of time -/
 theorem residual_bound (H d1 d2 mm : ℝ) (hH : |H| ≤ 1 / 2) (h1 : 17 / 10 ≤ d1) (h1' : d1 ≤ 23 / 10)
